@@ -282,7 +282,7 @@ fn witnesses() {
 
 pub fn run(seed: u64, tier: &str, shard: u64, nshards: u64, mode: Option<&str>) {
     let dirty = mode == Some("full");
-    if shard == 0 && mode.is_none() {
+    if shard == 0 && mode.is_none() && tier != "miri" {
         witnesses();
     }
     // ---- exhaustive block: 1 key, 1-2 value columns, chains of 0..=2 updates, every creator-state assignment, optional delete
@@ -303,7 +303,7 @@ pub fn run(seed: u64, tier: &str, shard: u64, nshards: u64, mode: Option<&str>) 
                     let n_assign = if nupd == 0 { 1 } else { STATES.len().pow(nupd as u32) };
                     for assign in 0..n_assign {
                         idx += 1;
-                        if idx % nshards != shard {
+                        if idx % nshards != shard % nshards {
                             continue;
                         }
                         let mut ups = vec![];
@@ -336,7 +336,7 @@ pub fn run(seed: u64, tier: &str, shard: u64, nshards: u64, mode: Option<&str>) 
         }
     }
     // ---- sampled block: wider schemas, longer chains by the creator, several readers
-    let n = if tier == "thorough" { 600000 } else { 40000 };
+    let n = if tier == "thorough" { 600000 } else if tier == "miri" { 60 } else { 40000 };
     let kinds = [VValKind::Int, VValKind::BigInt, VValKind::UInt, VValKind::BigUInt, VValKind::Float, VValKind::Double, VValKind::Text];
     let mut master = Rng::new(seed ^ shard.wrapping_mul(0xC18C_18C1_8C18_C18C));
     for i in 0..n {
